@@ -7,6 +7,7 @@ import (
 	"go/ast"
 	"go/token"
 	"go/types"
+	"golang.org/x/tools/go/types/typeutil"
 	"path/filepath"
 	"sort"
 	"strconv"
@@ -28,6 +29,7 @@ type c15 struct {
 func runC15(r *Report) {
 	r.Explanation = "S1 analysis of the generator for every document the loader accepts (no corpus). optional-deref: kin-openapi models absent optional members as nil pointers/interfaces; the table of optional sources is derived mechanically from the openapi3 type declarations (struct fields, map and slice elements of pointer or interface type) minus the loader-guaranteed *Ref.Value; on SSA every dereference of a value loaded from an optional source (field access, load, method call, passing it to a repo function that dereferences the parameter unconditionally — interprocedural fixed point) must be dominated by a nil test of that value. assert-ok: no single-result type assertion. panic-confined: explicit panic sites are reachable from the entry points only through text/template method invocation (whose safeCall turns panics into errors). bounds: every index/slice site the compiler's prove pass could not discharge matches a checked idiom. exit-code: main turns a non-nil error into log.Fatal*/os.Exit(!=0)."
 	r.Rule("C15/optional-deref", "a value loaded from an optional kin-openapi member is nil-tested before it is dereferenced (directly or by a callee that dereferences its parameter unconditionally)")
+	r.Rule("C15/schema-ref-phase", "in functions reachable from generator.NewSchema (component schemas still being filled in name order) a Schema method that follows Ref and calls a method on the target's Type (Kind) is guarded by <x>.Ref == nil")
 	r.Rule("C15/assert-ok", "no single-result type assertion on the generation path")
 	r.Rule("C15/panic-confined", "explicit panic() sites are reachable only through template method invocation, never by a plain Go call path from Generate/main")
 	r.Rule("C15/bounds", "every index/slice expression of the generator is proven by the compiler's prove pass or matches a checked idiom")
@@ -62,6 +64,7 @@ func runC15(r *Report) {
 	errPropagation(r, s, "C15/error-reaches-exit")
 	c.refValuePhase()
 	c.refRecursion()
+	c.schemaRefPhase()
 }
 
 func fnPkg(fn *ssa.Function) *ssa.Package {
@@ -1074,4 +1077,225 @@ func (c *c15) refRecursion() {
 		}
 	}
 	c.r.FloorMin("SchemaRef.Ref branch sites", n, 1)
+}
+
+// schemaRefPhase: generator.NewComponents first creates every SchemaComponent
+// empty and then fills them in name order through NewSchema. While that is
+// going on a Schema whose Ref is set may point at a component that is not
+// filled yet (Type is a nil interface). Schema methods that follow the
+// reference and invoke a method on the target's Type (Kind, found
+// structurally) therefore panic for a forward reference unless the call is
+// guarded by `<x>.Ref == nil` on the same expression.
+func (c *c15) schemaRefPhase() {
+	gp := c.s.Pkgs[modPath+"/generator"]
+	gs := c.s.SSA[modPath+"/generator"]
+	if gp == nil || gs == nil {
+		c.r.Undecided("C15/schema-ref-phase", "generator", "", "package not loaded")
+		return
+	}
+	info := gp.TypesInfo
+	schemaT, _ := gp.Types.Scope().Lookup("Schema").(*types.TypeName)
+	if schemaT == nil {
+		c.r.Undecided("C15/schema-ref-phase", "generator.Schema", "", "type not found")
+		return
+	}
+	isSchemaRecv := func(f *types.Func) bool {
+		sig, ok := f.Type().(*types.Signature)
+		if !ok || sig.Recv() == nil {
+			return false
+		}
+		t := sig.Recv().Type()
+		if p, ok := t.(*types.Pointer); ok {
+			t = p.Elem()
+		}
+		return types.Identical(t, schemaT.Type())
+	}
+	// M: Schema methods that call a method on <…>.Base().Type / .Ref.Schema.Type, closed under
+	// calls of an M method on the receiver
+	decls := map[*types.Func]*ast.FuncDecl{}
+	for _, f := range gp.Syntax {
+		for _, d := range f.Decls {
+			if fd, ok := d.(*ast.FuncDecl); ok && fd.Body != nil {
+				if fo, ok := info.Defs[fd.Name].(*types.Func); ok {
+					decls[fo] = fd
+				}
+			}
+		}
+	}
+	M := map[*types.Func]bool{}
+	followsRef := func(e ast.Expr) bool { // …Base() or ….Ref.Schema somewhere inside e
+		found := false
+		ast.Inspect(e, func(n ast.Node) bool {
+			switch x := n.(type) {
+			case *ast.CallExpr:
+				if fo, ok := typeutil.Callee(info, x).(*types.Func); ok && fo.Name() == "Base" && isSchemaRecv(fo) {
+					found = true
+				}
+			case *ast.SelectorExpr:
+				if x.Sel.Name == "Schema" {
+					if in, ok := x.X.(*ast.SelectorExpr); ok && in.Sel.Name == "Ref" {
+						found = true
+					}
+				}
+			}
+			return !found
+		})
+		return found
+	}
+	for fo, fd := range decls {
+		if !isSchemaRecv(fo) {
+			continue
+		}
+		ast.Inspect(fd.Body, func(n ast.Node) bool {
+			call, ok := n.(*ast.CallExpr)
+			if !ok {
+				return true
+			}
+			sel, ok := call.Fun.(*ast.SelectorExpr)
+			if !ok {
+				return true
+			}
+			if in, ok := sel.X.(*ast.SelectorExpr); ok && in.Sel.Name == "Type" && followsRef(in.X) {
+				if s := info.Selections[sel]; s != nil && s.Kind() == types.MethodVal {
+					M[fo] = true
+				}
+			}
+			return true
+		})
+	}
+	for changed := true; changed; {
+		changed = false
+		for fo, fd := range decls {
+			if M[fo] || !isSchemaRecv(fo) || fd.Recv == nil || len(fd.Recv.List) == 0 || len(fd.Recv.List[0].Names) == 0 {
+				continue
+			}
+			recv := info.Defs[fd.Recv.List[0].Names[0]]
+			ast.Inspect(fd.Body, func(n ast.Node) bool {
+				if call, ok := n.(*ast.CallExpr); ok {
+					if sel, ok := call.Fun.(*ast.SelectorExpr); ok && identObj(info, sel.X) == recv {
+						if co, ok := typeutil.Callee(info, call).(*types.Func); ok && M[co] {
+							M[fo] = true
+							changed = true
+						}
+					}
+				}
+				return true
+			})
+		}
+	}
+	var mnames []string
+	for fo := range M {
+		mnames = append(mnames, fo.Name())
+	}
+	sort.Strings(mnames)
+	c.r.Analysed["schema_ref_phase:type_following_methods"] = mnames
+	// construct phase: functions reachable from NewSchema
+	var roots []*ssa.Function
+	for _, nm := range []string{"NewSchema", "NewSchemaComponent"} {
+		if f := gs.Func(nm); f != nil {
+			roots = append(roots, f)
+		}
+	}
+	if len(roots) == 0 || len(M) == 0 {
+		c.r.Undecided("C15/schema-ref-phase", "generator.NewSchema", "", "constructor or reference-following methods not found")
+		return
+	}
+	reach := c.s.closure(roots)
+	nSites := 0
+	for fo, fd := range decls {
+		sf := c.s.Prog.FuncValue(fo)
+		if sf == nil || !reach[sf] || M[fo] {
+			continue
+		}
+		// walk with the conditions known true/false on the path
+		type fact struct {
+			e   ast.Expr
+			val bool
+		}
+		var walk func(n ast.Node, facts []fact)
+		var with func(facts []fact, e ast.Expr, val bool) []fact
+		with = func(facts []fact, e ast.Expr, val bool) []fact {
+			out := append(append([]fact{}, facts...), fact{e, val})
+			if be, ok := ast.Unparen(e).(*ast.BinaryExpr); ok {
+				if (be.Op == token.LAND && val) || (be.Op == token.LOR && !val) {
+					out = with(out, be.X, val)
+					out = with(out, be.Y, val)
+				}
+			}
+			if ue, ok := ast.Unparen(e).(*ast.UnaryExpr); ok && ue.Op == token.NOT {
+				out = with(out, ue.X, !val)
+			}
+			return out
+		}
+		check := func(call *ast.CallExpr, facts []fact) {
+			co, ok := typeutil.Callee(info, call).(*types.Func)
+			if !ok || !M[co] {
+				return
+			}
+			sel, ok := call.Fun.(*ast.SelectorExpr)
+			if !ok {
+				return
+			}
+			nSites++
+			R := types.ExprString(sel.X)
+			guarded := false
+			for _, f := range facts {
+				be, ok := ast.Unparen(f.e).(*ast.BinaryExpr)
+				if !ok || !isNilIdent(be.Y) || types.ExprString(be.X) != R+".Ref" {
+					continue
+				}
+				if (be.Op == token.EQL && f.val) || (be.Op == token.NEQ && !f.val) {
+					guarded = true
+				}
+			}
+			key := funcKey(gp, fd) + ":" + R + "." + co.Name() + "()"
+			if guarded {
+				c.r.OK("C15/schema-ref-phase", key, c.s.pos(call.Pos()), "guarded by "+R+".Ref == nil")
+			} else {
+				c.r.Violation("C15/schema-ref-phase", key, c.s.pos(call.Pos()), "while component schemas are still being filled (this function is reachable from NewSchema) "+co.Name()+"() follows "+R+".Ref into a component that may not be built yet and calls a method on its nil Type: a component that refers to one sorting after it makes the generator panic; the call must be guarded by "+R+".Ref == nil")
+			}
+		}
+		walk = func(n ast.Node, facts []fact) {
+			switch x := n.(type) {
+			case nil:
+				return
+			case *ast.IfStmt:
+				if x.Init != nil {
+					walk(x.Init, facts)
+				}
+				walk(x.Cond, facts)
+				walk(x.Body, with(facts, x.Cond, true))
+				if x.Else != nil {
+					walk(x.Else, with(facts, x.Cond, false))
+				}
+				return
+			case *ast.BinaryExpr:
+				if x.Op == token.LAND || x.Op == token.LOR {
+					walk(x.X, facts)
+					walk(x.Y, with(facts, x.X, x.Op == token.LAND))
+					return
+				}
+			case *ast.FuncLit:
+				return
+			case *ast.CallExpr:
+				check(x, facts)
+			}
+			var kids []ast.Node
+			ast.Inspect(n, func(m ast.Node) bool {
+				if m == n {
+					return true
+				}
+				if m != nil {
+					kids = append(kids, m)
+				}
+				return false
+			})
+			for _, k := range kids {
+				walk(k, facts)
+			}
+		}
+		walk(fd.Body, nil)
+	}
+	c.r.Analysed["schema_ref_phase:sites"] = nSites
+	c.r.FloorMin("reference-following Schema method calls in the construction phase", nSites, 3)
 }
